@@ -489,6 +489,8 @@ template<bool AL, bool PO> using CfgHugePage = ShadowPolicy<0x1000, 1 << 21, 1 <
 template<bool AL, bool PO> using CfgOmitSb = ShadowPolicy<0x1000, 0x30000, 1 << 18, 13, AL, PO, 1 | 4 | 8>;
 template<bool AL, bool PO> using CfgOmitAll = ShadowPolicy<0x1000, 1 << 18, 1 << 18, 13, AL, PO, 1 | 2 | 4 | 8>;
 template<bool AL, bool PO> using CfgOmitSlab = ShadowPolicy<0x1000, 1 << 18, 1 << 18, 8, AL, PO, 2>;
+template<bool PO> using CfgBothMaps = ShadowPolicy<0x1000, 1 << 14, 1 << 14, 8, true, PO, 16>;   // a policy that offers map(len) and map(len, align)
+template<bool PO> using CfgBothMapsBigSb = ShadowPolicy<0x1000, 1 << 16, 1 << 18, 10, true, PO, 16 | 1>; // ... 64 KiB slabs under the default 256 KiB superblock
 template<bool AL, bool PO> using CfgOddBig = ShadowPolicy<0x1000, 0x30000, 0x40000, 13, AL, PO>;
 
 // a policy that also offers the optional allocation-trace hooks (enable_trace / output_trace / walk_stack): the pool then compiles
@@ -726,6 +728,8 @@ int main(int argc, char **argv) {
 		run_cfg<CfgOddBig<true, true>, SM>("odd-slab-192K/aligned/poison", n / 2 + 1, ops);
 		run_cfg<TracePolicy<CfgSmall<false, true>>, SM>("small/unaligned/poison/trace-hooks", n, ops);
 		run_cfg<CfgHugePage<true, false>, SM>("hugepage-2M/aligned/plain", n / 3 + 1, ops);
+		run_cfg<CfgBothMaps<true>, SM>("small/both-map-forms/poison", n, ops);
+		run_cfg<CfgBothMapsBigSb<false>, SM>("slab-64K-default-sb/both-map-forms/plain", n, ops);
 		run_cfg<CfgOmitSb<false, true>, SM>("slabsize-192K-only/unaligned/poison", n / 2 + 1, ops);
 		run_cfg<CfgOmitSb<true, false>, SM>("slabsize-192K-only/aligned/plain", n / 2 + 1, ops);
 		run_cfg<CfgOmitAll<false, true>, SM>("no-constants/unaligned/poison", n / 2 + 1, ops);
@@ -745,6 +749,8 @@ int main(int argc, char **argv) {
 		fault_enum<CfgSmall<true, true>, SM>("small/aligned/poison/fill", 1008, 900, t, true);
 		fault_enum<CfgDefault<true, true>, SM>("default/aligned/poison", 1004, 300, t);
 		fault_enum<CfgOdd<false, true>, SM>("odd-slab/unaligned/poison", 1009, 400, t);
+		fault_enum<CfgBothMaps<true>, SM>("small/both-map-forms/poison", 1011, 400, t);
+		fault_enum<CfgBothMapsBigSb<false>, SM>("slab-64K-default-sb/both-map-forms/plain", 1012, 300, t);
 		fault_enum<TracePolicy<CfgSmall<true, true>>, SM>("small/aligned/poison/trace-hooks", 1010, 400, t);
 		if(t) { fault_enum<CfgBigSb<false, true>, SM>("bigsb/unaligned/poison", 1005, 400, t); fault_enum<CfgTiny<true, false>, SM>("tiny/aligned/plain", 1006, 400, t); }
 		sample("fault:small/unaligned/poison: a fixed 400-op history; run once to count map() attempts M, then re-run failing attempt i for every i (thorough: every pair and bursts of 3); all C01-C03 oracles stay armed, no mutex may stay held, later requests must succeed");
